@@ -91,8 +91,12 @@ def selected_rules(sp, reject):
 
 def run(ctx, rep):
     vs = []
-    for name, body in PROBES.items():
+    import tbl_probes
+    probes = dict(PROBES)
+    probes['scanl'] = tbl_probes.scanl_probe(ctx.art)[0]      # flex's own ~275 patterns: more rules than the initial size of rule_useful[]
+    for name, body in probes.items():
         for tag, opts in (('warn', ['noyywrap']), ('s', ['noyywrap', 'nodefault']), ('rej', ['noyywrap', 'reject']), ('Cf', ['noyywrap', 'full'])):
+            if name == 'scanl' and tag in ('rej', 'Cf'): continue
             spec = ''.join('%%option %s\n' % o for o in opts) + body.lstrip('\n')
             vs.append(variants.Variant('warn_%s_%s' % (name, tag), 'nr', (), opts, raw_spec=spec))
     variants.instantiate(ctx.art, vs, 'warn')
